@@ -2,7 +2,7 @@
 
 from __future__ import annotations
 
-from asyncio import CancelledError, ensure_future, gather
+from asyncio import CancelledError, ensure_future, gather, shield
 from contextlib import suppress
 from copy import copy
 from typing import TYPE_CHECKING, Any, NamedTuple, cast
@@ -236,6 +236,23 @@ class IncrementalExecutor(Executor[DeliveryGroupMap]):
             await gather(*awaitables, return_exceptions=True)
 
         return settle_awaitables()
+
+    async def abort_and_settle(self) -> None:
+        """Abort the incremental work and await the asynchronous part of it.
+
+        When the awaiting task is cancelled (again) meanwhile, the cleanup is
+        not interrupted, but settled in the background, so that the started
+        stream sources are still closed.
+        """
+        abort_result = self.abort()
+        if not self.is_awaitable(abort_result):
+            return
+        future = ensure_future(abort_result)
+        try:
+            await shield(future)
+        except CancelledError:
+            self.settle_in_background([future])
+            raise
 
     def abort_in_background(self, reason: BaseException | None = None) -> None:
         """Abort the produced incremental work, settling cleanup in background.
@@ -486,9 +503,7 @@ class IncrementalExecutor(Executor[DeliveryGroupMap]):
                 try:
                     data = await result
                 except (Exception, CancelledError):
-                    abort_result = self.abort()
-                    if self.is_awaitable(abort_result):
-                        await abort_result
+                    await self.abort_and_settle()
                     raise
                 return self.build_execution_group_result(delivery_groups, path, data)
 
@@ -714,9 +729,7 @@ class IncrementalExecutor(Executor[DeliveryGroupMap]):
                         None,
                     )
                 except (Exception, CancelledError):
-                    abort_result = self.abort()
-                    if is_awaitable(abort_result):
-                        await abort_result
+                    await self.abort_and_settle()
                     raise
                 return self.build_stream_item_result(completed)
 
@@ -753,9 +766,7 @@ class IncrementalExecutor(Executor[DeliveryGroupMap]):
                         )
                         resolved = None
                 except (Exception, CancelledError):
-                    abort_result = self.abort()
-                    if is_awaitable(abort_result):
-                        await abort_result
+                    await self.abort_and_settle()
                     raise
                 return self.build_stream_item_result(resolved)
 
